@@ -609,7 +609,8 @@ def gen_fault(rng: random.Random, size: int):
         return ["write", rng.choice([0, 1, max(size // 2, 0), max(size - 1, 0)])]
     if r < 0.8:
         # the storage has room for k < size bytes
-        return ["fsize", rng.choice([k for k in (0, 1, 1, size // 2, size - 1, size - 1) if 0 <= k < size])]
+        ks = [k for k in (0, 1, 1, size // 2, size - 1, size - 1) if 0 <= k < size]
+        return ["fsize", rng.choice(ks)] if ks else ["write", 0]
     if r < 0.85:
         return ["open"]
     if r < 0.93:
